@@ -24,7 +24,7 @@ META = dict(
                 "raises ValueError; (c) real ratios with |sum - 1| > 1e-6 raise ValueError; (d) two calls with the same seed give "
                 "term-equal folds, and two different seeds CAN give different folds (sat).",
     bounds=dict(quick="(a) one environment n in 0..8 with 1..3 folds, two environments (n1, n2) in {(0,3),(1,2),(5,4),(3,7)} with 2..3 folds, 1-d and n x 2 samples, ratios as list and as array; (b) 2..4 folds, D in {2,3,4,5,8,10} (k_i <= D); (c) 1..3 folds; (d) n = 4, 2 folds",
-                thorough="(a) n in 0..12, 1..4 folds, more pairs; (b) D in 2..16 and 100, 2..5 folds"),
+                thorough="(a) n in 0..10 (4 folds up to n = 8), more pairs; (b) D in 2..12, 16, 20 with 2..4 folds and D in 2..6 with 5 folds"),
     outside=["ratio denominators other than the listed D in the bit-precise claim", "more than 5 folds", "negative ratios", "floating-point evaluation of n * ratio (decided on exact reals; replays use floats)"],
     stubs=["numpy -> symnp", "numpy.random.default_rng -> contract stub (shuffle = arbitrary permutation)", "IEEE binary64 round-nearest-even (z3 FloatingPoint) for the ratio-sum test"],
     assumptions=["z3 sound (QF_NRA, QF_FP)", "numpy sums fewer than 8 values left to right in binary64"],
@@ -336,13 +336,13 @@ def _replay_reach(rec):
 def obligations(tier):
     ob = []
     quick = tier == 'quick'
-    nmax = 8 if quick else 12
+    nmax = 8 if quick else 10
     fmax = 3 if quick else 4
     for m in range(1, fmax + 1):
         cubes = []
         for n in range(0, nmax + 1):
             for shape, rs in (('1d', 'list'), ('2d', 'array')):
-                if n > 8 and shape == '2d':
+                if n > 8 and (shape == '2d' or m > 3):
                     continue
                 cubes.append(dict(ns=[n], folds=m, shape=shape, ratios=rs))
         ob.append(Obligation('split_E1_f%d' % m, h_split, cubes, "one environment of n = 0..%d rows, %d fold(s), symbolic ratios / labels / seed / shuffle" % (nmax, m),
@@ -351,8 +351,10 @@ def obligations(tier):
     for m in range(2, fmax + 1):
         cubes = [dict(ns=list(pr), folds=m, shape=sh, ratios='list') for pr in pairs for sh in ('1d', '2d')]
         ob.append(Obligation('split_E2_f%d' % m, h_split, cubes, "two environments of different sizes, %d folds" % m, expect=('returned',), weight=30 * m))
-    Ds = [2, 3, 4, 5, 8, 10] if quick else list(range(2, 17)) + [100]
+    Ds = [2, 3, 4, 5, 8, 10] if quick else list(range(2, 13)) + [16, 20]
     for m in range(2, (4 if quick else 5) + 1):
+        if m == 5:
+            Ds = [2, 3, 4, 5, 6]
         ob.append(Obligation('accept_fp_f%d' % m, _mk_ratio('accept_fp'), [dict(folds=m, D=D) for D in Ds],
                              "bit-precise (binary64): ratios k_i / D with sum(k_i) = D are accepted", expect=('returned',), weight=20 * m, timeout_ms=300000))
         ob.append(Obligation('reject_fp_f%d' % m, _mk_ratio('reject_fp'), [dict(folds=m, D=D) for D in Ds],
